@@ -4,8 +4,8 @@
     them with the implementation as exact fractions.  Proved here: every ratio lies in [0,1], edge_contribution
     (computed by the code from run lengths) equals |T_uv| / |T|, node_presence, and the laws of the inter-event
     time histograms. *)
-From DynVerif Require Import Base Graph Derived Spec Stats.
-From DynVerif.proofs Require Import CoreInv C01Facts QueryFacts SnapInv DerivedFacts StatsFacts.
+From DynVerif Require Import Base Graph Derived Spec Stats StatsSpec.
+From DynVerif.proofs Require Import CoreInv C01Facts QueryFacts SnapInv DerivedFacts StatsFacts StatsSpecFacts.
 
 (** the numerators and denominators ARE the set sizes of the stream-graph definitions: T = snapshot ids, T_u = node_presence u,
     T_uv = instants of the pair (counted over T) *)
@@ -59,6 +59,69 @@ Proof.
 Qed.
 Print Assumptions C17_edge_contribution.
 
+(** ** The statistics equal their stream-graph definitions over the HISTORY (StatsSpec.v: [sp_*] are written with the
+    presence relation [pres] of the accepted calls only; no graph state).  For every call sequence on a DynGraph
+    ([g] the state reached, [h] the accepted calls): *)
+
+(** the three sets of the definitions: T_uv, T_u (hence V_t), T and V are what the queries answer, and [snap_keys g] /
+    [node_ids g] enumerate T and V without repetition *)
+Theorem C17_spec_sets : forall cs,
+  let g := run_calls (G0 false) cs in let h := accepted (G0 false) cs in
+  (forall u v t, has_interaction g u v (Some t) = sp_pair h u v t) /\
+  (forall u t, has_node g u (Some t) = sp_node h u t) /\
+  enumerates (snap_keys g) (fun t => sp_inhabited h t = true) /\
+  enumerates (node_ids g) (sp_is_node h).
+Proof.
+  intros cs. split; [exact (spec_pair cs)|]. split; [exact (spec_node cs)|]. split; [exact (spec_T cs)|exact (spec_V cs)].
+Qed.
+Print Assumptions C17_spec_sets.
+
+(** coverage = sum_t |V_t| / (|T| |V|), node_contribution = |T_u| / |T|, edge_contribution = |T_uv| / |T| (KeyError
+    exactly for a pair that never interacted), node_pair_uniformity = |T_u & T_v| / |T_u u T_v|, uniformity and density
+    as sums over the unordered pairs of distinct nodes, pair_density = |T_uv| / |T_u & T_v| (0 on a zero denominator),
+    node_presence = T_u, node_density as the code reads it (see StatsSpec) -- self-loops or not *)
+Theorem C17_spec_ratios : forall cs,
+  let g := run_calls (G0 false) cs in let h := accepted (G0 false) cs in
+  let T := snap_keys g in let V := node_ids g in
+  coverage g = sp_coverage h T V /\
+  uniformity g = sp_uniformity h T V /\
+  st_density g = sp_density h T V /\
+  (forall u, node_contribution g u = sp_node_contribution h T u) /\
+  (forall u, node_presence g u = sp_node_presence h T u) /\
+  (forall u v, node_pair_uniformity g u v = sp_node_pair_uniformity h T u v) /\
+  (forall u v, pair_density g u v = sp_pair_density h T u v) /\
+  (forall u v, match edge_contribution g u v with
+               | Some r => r = sp_edge_contribution h T u v
+               | None => forall t, sp_pair h u v t = false end).
+Proof.
+  intros cs. split; [exact (spec_coverage cs)|]. split; [exact (spec_uniformity cs)|]. split; [exact (spec_density cs)|].
+  split; [exact (spec_node_contribution cs)|]. split; [exact (spec_node_presence cs)|].
+  split; [exact (spec_node_pair_uniformity cs)|]. split; [exact (spec_pair_density cs)|exact (spec_edge_contribution cs)].
+Qed.
+Print Assumptions C17_spec_ratios.
+
+(** avg_number_of_nodes = sum_t |V_t| / |T| over the ascending snapshot ids *)
+Theorem C17_spec_avg : forall cs,
+  let g := run_calls (G0 false) cs in let h := accepted (G0 false) cs in
+  fst (avg_number_of_nodes g) = fst (sp_avg_number_of_nodes h (snapshot_ids g) (node_ids g)) /\
+  snd (avg_number_of_nodes g) = snd (sp_avg_number_of_nodes h (snapshot_ids g) (node_ids g)) /\
+  enumerates (snapshot_ids g) (fun t => sp_inhabited h t = true).
+Proof. exact spec_avg_number_of_nodes. Qed.
+Print Assumptions C17_spec_avg.
+
+(** node_density and, on graphs without self-loops (the property's quantifier), snapshot_density(t) = 2 m_t / (n_t (n_t - 1)) at
+    every t, inhabited or not *)
+Theorem C17_spec_node_density : forall cs u, no_loops cs ->
+  let g := run_calls (G0 false) cs in let h := accepted (G0 false) cs in
+  node_density g u = sp_node_density h (snap_keys g) (node_ids g) u.
+Proof. intros cs u H. exact (spec_node_density cs H u). Qed.
+Print Assumptions C17_spec_node_density.
+Theorem C17_spec_snapshot_density : forall cs t, no_loops cs ->
+  let g := run_calls (G0 false) cs in let h := accepted (G0 false) cs in
+  snapshot_density g t = Some (sp_snapshot_density h (node_ids g) t).
+Proof. intros cs t H. exact (spec_snapshot_density cs H t). Qed.
+Print Assumptions C17_spec_snapshot_density.
+
 (** inter-event time distributions (global / per node / in / out): total mass = #events - 1, weighted sum =
     last - first event time; each key's count is its number of occurrences among the gaps *)
 Theorem C17_iet : forall g sel u,
@@ -79,3 +142,12 @@ Example C17_example :
   inter_event_time_distribution g 0 0 = [(1, 1); (2, 2)].
 Proof. vm_compute. auto. Qed.
 Print Assumptions C17_example.
+
+Example C17_spec_example :
+  let cs := [mkCall 1 2 0 (Some 3); mkCall 2 3 1 None; mkCall 1 2 5 None; mkCall 3 1 2 (Some 2); mkCall 1 2 4 None] in
+  let h := accepted (G0 false) cs in
+  no_loops cs /\ length h = 4%nat /\
+  sp_coverage h [0; 1; 2; 5] [1; 2; 3] = (9, 12) /\ sp_density h [0; 1; 2; 5] [1; 2; 3] = (5, 6) /\
+  sp_uniformity h [0; 1; 2; 5] [1; 2; 3] = (6, 12) /\ sp_snapshot_density h [1; 2; 3] 1 = (4, 6).
+Proof. split; [intros c [E|[E|[E|[E|[E|[]]]]]]; subst c; discriminate|]. vm_compute. auto. Qed.
+Print Assumptions C17_spec_example.
